@@ -13,7 +13,7 @@ VARIABLE l     \* next line to consume
 TraceReqs == 1..TraceLog[1].nr
 TraceConns == 1..TraceLog[1].nc
 CfgOf(e) == [maxConns |-> e.maxconns, wait |-> (e.wait = 1), lifo |-> (e.lifo = 1)]
-TraceConfigs == {CfgOf(TraceLog[i]) : i \in {j \in 1..Len(TraceLog) : TraceLog[j].ev = "init"}}
+TraceConfigs == [maxConns : 1..16, wait : BOOLEAN, lifo : BOOLEAN]
 
 E == TraceLog[l]
 IsEvent(name) == l <= Len(TraceLog) /\ E.ev = name /\ l' = l + 1
